@@ -104,8 +104,8 @@ impl QModel {
             invalid = s(&["", "!"]);
         } else {
             keys = match tier {
-                Tier::Quick => s(&["a", "A", "ab", "Ab", "aB", "b", "B", "b-1", "B-1", "c", "C"]),
-                Tier::Thorough => s(&["a", "A", "ab", "Ab", "aB", "b", "B", "b-1", "B-1", "c", "C", "b.", "B."]),
+                Tier::Quick => s(&["a", "A", "ab", "Ab", "aB", "a_", "A_", "b", "B", "b-1", "B-1"]),
+                Tier::Thorough => s(&["a", "A", "ab", "Ab", "aB", "a_", "A_", "b", "B", "b-1", "B-1", "b.", "B."]),
             };
             values = match tier {
                 Tier::Quick => s(&["", "x", "Y"]),
